@@ -230,6 +230,13 @@ func (s *Sim) opC13PlanModify() {
 		r.Logf("gov plan modify %s: no live version", idx)
 		return
 	}
+	if p.Block == s.Height() {
+		// a new version in the block that created the latest one would overwrite it in place (a
+		// version that subscriptions may already have bought would change under them): not generated
+		r.Op("c13_plan_mod", "skip")
+		r.Logf("gov plan modify %s: skipped (latest version was created in this block)", idx)
+		return
+	}
 	inPlace := r.Chance("ops", 1, 6) && !c13NoInPlace
 	what := ""
 	if inPlace {
